@@ -9,7 +9,7 @@ use model::prog::*;
 use serde_json::Value;
 
 fn intact(p: Program) -> Case {
-    Case { prog: p, cuts: CutSel::List(vec![CutAt { refs: vec![], from_eof: 0 }]), seg: (0, 1) }
+    Case { prog: p, cuts: CutSel::List(vec![CutAt { refs: vec![], from_eof: 0 }]), seg: (0, 1), foreign: None }
 }
 
 /// (a) undamaged archives, aimed at compressed streams that end on / next to a block edge
